@@ -100,6 +100,12 @@ def genesis (g : Genome W) (netId : Int) : Except Stop (Net W) :=
           .ok { id := netId, nodes := tbl, inputs := positions (fun n => n.kind == Kind.input || n.kind == Kind.bias) g.nodes 0,
                 outputs := outs, ctrl := cs }
 
+/-- the phenotype an organism made from an add-link baby is evaluated with: `mutateAddLink` drops the network it built
+    for its recurrence test when it inserts the new gene `x` (repair 585232e), so `Organism.Phenotype()` expresses
+    the genome WITH `x` -/
+def addLinkPhenotype (g : Genome W) (x : Gene W) (netId : Int) : Except Stop (Net W) :=
+  genesis { g with genes := geneInsert g.genes x } netId
+
 /-! ### graph view (`network_graph.go`) -/
 
 /-- `allNodesMIMO` -/
@@ -142,15 +148,21 @@ def scanUV (uid vid : Int) : List (NNodeS W) → Option (NNodeS W) → Option (N
     let v' := if nd.id == vid then some nd else v
     if u'.isSome && v'.isSome then (u', v') else scanUV uid vid rest u' v'
 
+/-- the loop over `cn.Outgoing` inside ONE control node -/
+def ctrlEdgeOut (net : Net W) (cn : NNodeS W) (oid : Int) (directed vKnown : Bool) : Option (Option (NLink W)) :=
+  match cn.outgoing.find? fun l => idAt net l.dst == some oid with
+  | some l => if !directed then some (some l) else if vKnown then some (some l) else some none
+  | none => none
+
 /-- result of the search inside ONE control node with id `cid`: `some r` = the function returns `r` here,
-    `none` = nothing matched, go on with the next control node -/
+    `none` = nothing matched, go on with the next control node.  A matching INPUT wire answers an undirected query
+    and a directed query that ends at the control node; for a directed query that STARTS at the control node the
+    loop is left (`break`, repair 513f15a) and the output wires decide - the ordinary node may be an input and an
+    output of the module.  (`Model/LegacyGenesis.lean` keeps the old `return nil`.) -/
 def ctrlEdge (net : Net W) (cn : NNodeS W) (oid : Int) (directed uKnown vKnown : Bool) : Option (Option (NLink W)) :=
   match cn.incoming.find? fun l => idAt net l.src == some oid with
-  | some l => if !directed then some (some l) else if uKnown then some (some l) else some none
-  | none =>
-    match cn.outgoing.find? fun l => idAt net l.dst == some oid with
-    | some l => if !directed then some (some l) else if vKnown then some (some l) else some none
-    | none => none
+  | some l => if !directed || uKnown then some (some l) else ctrlEdgeOut net cn oid directed vKnown
+  | none => ctrlEdgeOut net cn oid directed vKnown
 
 def ctrlScan (net : Net W) (cid oid : Int) (directed uKnown vKnown : Bool) : List (NNodeS W) → Option (NLink W)
   | [] => none
